@@ -22,7 +22,7 @@ from ..seams import SIM
 
 ID = "C14"
 LEVEL = "exploration"
-SEGMENT_TIMEOUT = 180
+SEGMENT_TIMEOUT = 600
 TIERS = {
     "quick": dict(plans=70, budget_s=60, worlds=15, det_plans=2, hashseeds=8),
     "thorough": dict(plans=6000, budget_s=1200, worlds=80, det_plans=12, hashseeds=256,
@@ -115,10 +115,27 @@ def gen_op(rng, w):
     return op
 
 
+SHIPPED = {
+    "na10860": ("NA10860.bam", "cyp2d6", "illumina"),
+    "na10860_pgx": ("NA10860.bam", "cyp2d6", "pgx2"),
+    "vcf": ("NA07000_SLCO1B1.vcf.gz", "slco1b1", None),
+    "dump_hard": ("HARD.dump.tar.gz", "pharmacoscan/cyp2d6", None),
+    "dump_ins": ("INS.dump.tar.gz", "pharmacoscan/cyp2d6", None),
+}
+
+
 def gen_plan(rng, tier, i, seed):
     cfg = TIERS[tier]
     wi = i % cfg["worlds"]
     w = gen_world(seed, wi)
+    if tier == "thorough" and i % 40 == 7:
+        # shipped material: the same command under two hash seeds (real catalogue, real reads)
+        what = rng.choice(sorted(SHIPPED))
+        op = {"op": "shipped", "what": what, "out": rng.choice(["aldy", "vcf", "simple"])}
+        r2 = random.Random(f"C14:{seed}:hs")
+        return {"w": w, "segments": [{"hashseed": rng.choice([1, 2, 3, r2.randint(8, 2**32 - 1)]), "cwd": "run",
+                                      "tmp": "default", "clock": {}, "profile_route": "bam", "ops": [op],
+                                      "sim": {"max_solves": 20000, "max_wall": 900.0}}]}
     hs_pool = list(range(min(8, cfg["hashseeds"])))
     if cfg["hashseeds"] > 8:
         r2 = random.Random(f"C14:{seed}:hs")
@@ -209,6 +226,8 @@ def execute(plan, runner, rundir):
                     s = dict(base)
                     s.update({"hashseed": 0, "cwd": "run", "tmp": "default", "clock": {},
                               "profile_route": "bam", "ops": [rop], "rundir": rd, "tag": "ref"})
+                    if rop["op"] == "shipped":
+                        s["sim"] = {"max_solves": 20000, "max_wall": 900.0}
                     try:
                         return runner.segment(s)["ops"][0]
                     finally:
@@ -656,7 +675,18 @@ def _op(ctx, op):
     kind = op["op"]
     r = {}
     nstage0 = len(SIM.stage_calls)
-    if kind in ("genotype", "multi", "debug"):
+    if kind == "shipped":
+        from aldy.common import script_path
+
+        fn, gname, prof = SHIPPED[op["what"]]
+        ctx.nout = getattr(ctx, "nout", 0) + 1
+        outp = os.path.join(rd, f"out{seg['tag']}-{ctx.nout}.{op['out']}")
+        rec = O.run_genotype(gname, script_path(f"aldy.tests.resources/{fn}"), prof, outp)
+        rec.pop("_raw", None)
+        r.update(rec)
+        r["gene_digests"] = {}
+        r["_chg"] = []
+    elif kind in ("genotype", "multi", "debug"):
         prof, cnr = _profile_args(seg)
         if op.get("exome"):
             prof, cnr = op["exome"], None
